@@ -187,7 +187,9 @@ def random_arch(rng: random.Random, *, dim: int, max_nodes: int, widths=(2, 3, 4
                 nodes.append({"op": "pool", "ins": [pick(c)], "kind": rng.choice(["avg", "max"])})
         elif kind == "flat" and nf:
             c = [t for t in nf if sh[t]["ch"] * sh[t]["sp"] ** dim <= 64]
-            if c:
+            if c and dim == 1 and rng.random() < 0.3 and [t for t in c if t != 0]:
+                nodes.append({"op": "gsq", "ins": [pick([t for t in c if t != 0])], "d": rng.choice([2, -1])})
+            elif c:
                 nodes.append({"op": "flat", "ins": [pick(c)]})
         elif kind in ("add", "catt"):
             pairs = [(p, q) for p in T for q in T if p != q and sh[p] == sh[q] and (kind == "add" or not sh[p]["flat"])]
